@@ -40,7 +40,8 @@ class Ctx:
     def all_programs(self):
         yield "lib", self.prog
         for k, p in self.extra.items():
-            yield k, p
+            if isinstance(k, str) and k.startswith("bin:"):
+                yield k, p
 
 
 def shipped_bodies(prog):
